@@ -1,9 +1,11 @@
-/- Driver ops for Maze.  Ops: maze.step, maze.state, maze.judge, maze.instance, maze.bounds -/
+/- Driver ops for Maze.  Ops: maze.step, maze.state, maze.judge, maze.instance, maze.bounds, maze.spec -/
 import JumanjiModel.Bridge.Json
 import JumanjiModel.Env.Maze.Model
 import JumanjiModel.Env.Maze.MazeGen
 import JumanjiModel.Env.Maze.Bounds
 import JumanjiModel.Env.Maze.Generator
+import JumanjiModel.Bridge.Spec
+import JumanjiModel.Env.Maze.SpecValid
 open Lean Jb
 
 namespace Jb.Maze
@@ -32,6 +34,8 @@ def jObs (o : Obs) : Json :=
   jObj [("agent_position", jPos o.agent), ("target_position", jPos o.target),
         ("walls", jBoolGrid o.walls), ("action_mask", jBools o.actionMask), ("step_count", jInt o.stepCount)]
 
+def jNValue (v : Sp.NValue) : Json := jList (fun (e : String × Sp.Arr) => jObj [("key", jStr e.1), ("value", SpecOps.jArr e.2)]) v
+
 def getObs (j : Json) : Except String Obs := do
   pure { agent := ← getPos j "agent_position", target := ← getPos j "target_position",
          walls := ← fBoolGrid j "walls", actionMask := ← fBools j "action_mask",
@@ -54,7 +58,13 @@ def opState : Op := fun j => do
               ("legal", jBools (legalMask cfg s)),
               ("obs", jObs (observe cfg s)),
               ("consistent", jBool (decide (Consistent cfg s))),
-              ("objective", jRat (objective s))])
+              ("objective", jRat (objective s)),
+              -- wave 4 (C01 membership): the timestep the model's `reset` builds on top of this state, the L1 observation
+              -- (`_observation_from_state`: the CACHED mask) as spec-level arrays, `(obsSpec cfg).valid` of it, the invariant
+              ("reset_ts", jTimeStep jObs (reset cfg s).2),
+              ("nvalue", jNValue (toNValue (obsOf s))),
+              ("obs_in_spec", jBool ((obsSpec cfg).valid (toNValue (obsOf s)))),
+              ("spec_inv", jBool (decide (SpecInv cfg s)))])
 
 /-- {cfg, state, action, next, ts} → {illegal_ok: bool|null, conserved: bool} -/
 def opJudge : Op := fun j => do
@@ -79,7 +89,10 @@ def opInstance : Op := fun j => do
               ("agent_ne_target", jBool (decide (s.agent ≠ s.target))),
               ("connected", jBool (MazeGen.connected m nr nc)),
               ("step_count_zero", jBool (decide (s.stepCount = 0))),
-              ("mask_fresh", jBool (decide (s.actionMask = legalMask cfg s)))] ++
+              ("mask_fresh", jBool (decide (s.actionMask = legalMask cfg s))),
+              -- wave 4: the invariant of the C01 membership theorems and membership of the reset observation
+              ("spec_inv", jBool (decide (SpecInv cfg s))),
+              ("reset_obs_in_spec", jBool ((obsSpec cfg).valid (toNValue (reset cfg s).2.obs)))] ++
              (if rg then
                [("origin_free", jBool (!MazeGen.wall m 0 0)),
                 ("even_cells_free", jBool (MazeGen.evenCellsFree m nr nc)),
@@ -95,6 +108,14 @@ def opBounds : Op := fun j => do
   let jo : Option Rat → Json := fun o => match o with | none => .null | some r => jRat r
   pure (jObj ((obsBounds cfg).map (fun (k, lo, hi) => (k, jObj [("lo", jo lo), ("hi", jo hi)]))))
 
+/-- {cfg} → the model's `obsSpec cfg`, `actionSpec`, reward and discount spec in the `speclib.leaf_json` layout, and
+    `generate_value()` of the action spec -/
+def opSpec : Op := fun j => do
+  let cfg ← getCfg (← field j "cfg")
+  pure (jObj [("observation_spec", SpecOps.jNested (obsSpec cfg)), ("action_spec", SpecOps.jLeaf actionSpec),
+              ("reward_spec", SpecOps.jLeaf PzS.rewardSpec), ("discount_spec", SpecOps.jLeaf PzS.discountSpec),
+              ("action_spec_wf", jBool actionSpec.WF), ("generate_value", SpecOps.jArr actionSpec.generate)])
+
 def ops : List (String × Op) :=
-  [("maze.bounds", opBounds), ("maze.step", opStep), ("maze.state", opState), ("maze.judge", opJudge), ("maze.instance", opInstance)]
+  [("maze.spec", opSpec), ("maze.bounds", opBounds), ("maze.step", opStep), ("maze.state", opState), ("maze.judge", opJudge), ("maze.instance", opInstance)]
 end Jb.Maze
